@@ -51,6 +51,7 @@ type sim struct {
 	curSlot uint64
 	step    int
 	stop    bool
+	ended   bool            // the chain ran out of active validators: the run ends without a finding
 	relabel bool            // the next finding of an observing monitor will be re-labelled by its caller
 	passive int             // > 0 inside monitors that only observe
 	foreign map[string]bool // findings of other properties already recorded
@@ -509,6 +510,20 @@ func (s *sim) checkForkLookups(box *stateBox, where string) {
 			return
 		}
 	}
+	// the signing domain the state derives for a message epoch: the previous version strictly before
+	// the fork epoch of its record, the current version from that epoch on
+	for _, e := range []uint64{uint64(f.Epoch) - 1, uint64(f.Epoch), uint64(f.Epoch) + 1, epoch} {
+		if e == ^uint64(0) {
+			continue // (fork epoch 0 has no epoch before it)
+		}
+		for _, dt := range []common.BLSDomainType{common.DOMAIN_BEACON_PROPOSER, common.DOMAIN_RANDAO} {
+			got, err := common.GetDomain(box.st, dt, common.Epoch(e))
+			if err != nil || got != common.BLSDomain(domainFor(f, w.gvr, dt, common.Epoch(e))) {
+				s.viol("C14", "state-domain-for-epoch", fmt.Sprintf("%s: state at slot %d with fork record (%s, %s, %d): the signing domain for a message of epoch %d (type %x) is not that of the version in force in that epoch (err %v)", where, slot, f.PreviousVersion, f.CurrentVersion, f.Epoch, e, dt, err))
+				return
+			}
+		}
+	}
 	if v := w.spec.ForkVersion(slot); v != w.versionOfFork(want) {
 		s.viol("C14", "spec-fork-version", fmt.Sprintf("Spec.ForkVersion(slot %d, epoch %d) = %s, schedule %v says %s", slot, epoch, v, w.cfg.ForkEpochs, w.versionOfFork(want)))
 		return
@@ -842,6 +857,13 @@ func (s *sim) tick(n *simNode, slot uint64) {
 		s.viol("C02", "panic/ProcessSlots/"+p.frame, p.val)
 		return
 	}
+	if err != nil && (strings.Contains(err.Error(), "no active validators") || s.w.activeSetRunsOutOf(n.ticked.st, slot)) {
+		// every validator exited or was ejected: the chain (of the specification as well) ends here
+		s.res.Stat("runs_ended_without_active_validators", 1)
+		s.stop = true
+		s.ended = true
+		return
+	}
 	if err != nil {
 		s.viol("C02", "process-slots-error", fmt.Sprintf("node %d ticking to slot %d: %v", n.id, slot, err))
 		return
@@ -1108,7 +1130,11 @@ func run(cfg *Config, opt core.Options, res *core.Result) *sim {
 // one after it on b's chain: committees, proposers and sync committees cannot be computed (by the
 // specification either) and the chain ends.
 func (w *World) activeSetRunsOut(b *blockRec, slot uint64) bool {
-	vals, err := b.post.st.Validators()
+	return w.activeSetRunsOutOf(b.post.st, slot)
+}
+
+func (w *World) activeSetRunsOutOf(st common.BeaconState, slot uint64) bool {
+	vals, err := st.Validators()
 	if err != nil {
 		return false
 	}
